@@ -164,7 +164,7 @@ func genC20(ctx *fw.Ctx) []fw.Case {
 		s := s
 		cases = append(cases, fw.Case{ID: "perm/" + s.ID, Run: func(r *fw.Rec) { c20Perm(r, s) }})
 	}
-	for b := 0; b < ctx.Pick(24, 400); b++ {
+	for b := 0; b < ctx.Pick(24, 2000); b++ {
 		b := b
 		cases = append(cases, fw.Case{ID: fmt.Sprintf("entity-order/%d", b), Run: func(r *fw.Rec) { c20EntityOrder(r, b) }})
 	}
@@ -179,7 +179,7 @@ func genC20(ctx *fw.Ctx) []fw.Case {
 // every section in the stated order.
 func c20APIEditOrder(r *fw.Rec) {
 	rng := r.Ctx().Rand("c20apiedit")
-	for round := 0; round < r.Ctx().Pick(40, 600); round++ {
+	for round := 0; round < r.Ctx().Pick(40, 3000); round++ {
 		ids := rng.Perm(12)[:2+rng.Intn(4)]
 		sort.Ints(ids)
 		var sb strings.Builder
